@@ -46,11 +46,11 @@ def plan(tier, seed):
             for j in range(len(PHR)):
                 if PHR[i][0] <= PHR[j][0]:
                     shards.append(("k3", i, j))
-    shards += [("long", n) for n in (8, 12, 20, 40)]
+    shards += [("long", n) for n in (8, 12, 20, 40, 300)]
     shards += [("big", bi, i) for bi in range(len(BASES)) for i in range(-1, len(PHR))]
     return dict(
         shards=shards,
-        bounds=dict(tick_magnitudes="the <= 1-phrase layer (and a slice of the 2-phrase layer) repeated with every tick shifted by %r" % (BASES,), long_lists="lists of 8, 12, 20, 40 phrases (adjacent / nested / zero-length interspersed / overlapping ladders) with a note on every tick", max_phrases=2 if tier == "quick" else 3, phrase_start="0..5", phrase_length="0..4", note_ticks="all non-empty subsets of 0..8"),
+        bounds=dict(tick_magnitudes="the <= 1-phrase layer (and a slice of the 2-phrase layer) repeated with every tick shifted by %r" % (BASES,), long_lists="lists of 8, 12, 20, 40, 300 phrases (adjacent / nested / zero-length interspersed / overlapping ladders) with a note on every tick", max_phrases=2 if tier == "quick" else 3, phrase_start="0..5", phrase_length="0..4", note_ticks="all non-empty subsets of 0..8"),
         budget_s=1200 if tier == "thorough" else 300,
     )
 
